@@ -14,18 +14,7 @@ def gen(ctx, n):
              ([], [("RFVoltage", ["5e5"]), ("steps", ["256"]), ("SyncFreq", ["7123.456"])]),
              (["-V", "2e6"], [("RFVoltage", ["5e5"]), ("alpha0", ["0"])]),
              (["-o", "/dev/null", "-i", "/dev/null", "--tracking", "t.txt"], None)]
-    def cli_of(av):
-        res, i = [], 0
-        while i < len(av):
-            nm = av[i]
-            j = i + 1
-            while j < len(av) and not (av[j].startswith("-") and not av[j][1:2].isdigit() and av[j] != "-"):
-                j += 1
-            kind = "L" if nm.startswith("--") else "S"
-            o = oc.spec_resolve(nm.lstrip("-"), kind)
-            res.append(dict(kind=kind, name=nm.lstrip("-"), toks=av[i + 1:j], opt=o["name"] if o else None))
-            i = j
-        return res
+    cli_of = oc.cli_of
     # the saved file re-read with extra command-line options: an option the original gave, one it took from a legacy line of
     # the parent file, the vector option, alpha0 against a saved alpha0=0, a synchrotron frequency on top of a saved alpha0
     extra_x = [(["-V", "2e6", "-I", "1e-3", "2e-3"], None, ["-V", "3.3e6"]),
